@@ -182,7 +182,11 @@ def run(F, S, R, tier):
                 R.bad("order/spill", "memory eviction is not preceded by the backend write: a concurrent reader could miss the header", [lm.where()])
             a = ib[0][0].operand_sources(ib[0][1].args[1])
             r_ = rb[0][0].operand_sources(rb[0][1].args[1])
-            if K.src_match(a, [r"call:.*MemoryMap::front_n$"]) and K.src_match(r_, [r"call:.*MemoryMap::front_n$"]):
+            NARROW = [r"call:.*(Index|IndexMut)::index(_mut)?$", r"agg:core::ops::range::Range", r"call:.*cmp::min$|call:.*::min$", r"call:.*Iterator::(take|skip|step_by|filter)$|call:.*::(truncate|split_at|chunks)$"]
+            narrowed = [x for x in sorted(a) if any(K.rx(p_).search(x) for p_ in NARROW)]
+            if narrowed and not [x for x in sorted(r_) if any(K.rx(p_).search(x) for p_ in NARROW)]:
+                R.bad("prov/spill/same-values", "only a part of the collected values is written to the backend (%s) while all of them are evicted from memory: the rest is in neither tier" % narrowed[:2], [ib[0][1].where()])
+            elif K.src_match(a, [r"call:.*MemoryMap::front_n$"]) and K.src_match(r_, [r"call:.*MemoryMap::front_n$"]):
                 R.ok("prov/spill/same-values", "exactly the spilled values are evicted", [rb[0][1].where()])
             else:
                 R.bad("prov/spill/same-values", "the evicted keys are not the spilled values", [lm.where()])
